@@ -719,3 +719,123 @@ def F7(m, R):
             R.check(ok, f, body[0] if body else chain, 'RESET empties the state', 'RESET arm does %s' % texts, construct=cons)
         else:
             R.undecided(f, chain, 'member %s has no recognised role' % k, construct=cons)
+
+
+def _order_source(e, parsed, dicts):
+    """'sequence' | 'dict' | None for an iterable expression"""
+    t = norm(e)
+    if t in parsed:
+        return 'sequence'
+    if isinstance(e, ast.Call) and call_name(e) in ('items', 'values', 'keys') and isinstance(e.func, ast.Attribute) and norm(e.func.value) in dicts:
+        return 'dict'
+    if t in dicts:
+        return 'dict'
+    if isinstance(e, ast.Call) and call_name(e) in ('list', 'tuple', 'iter', 'enumerate') and e.args:
+        return _order_source(e.args[0], parsed, dicts)
+    return None
+
+
+@rule('P28', 'parse-order: set_ansi_str starts the new settings of one sequence in the order in which the sequence lists them -- the order in '
+             'which the renderer emits a start list -- so that a simplified value re-parses to itself', floor=1)
+def P28(m, R):
+    f = m.fn('AnsiString.set_ansi_str')
+    std = m.fn('settings_to_dict')
+    parsed = {norm(s.targets[0]) for s in f.walk() if isinstance(s, ast.Assign) and call_name(s.value) == 'parse_graphic_sequence'}
+    dicts = {norm(s.targets[0]) for s in f.walk() if isinstance(s, ast.Assign) and call_name(s.value) == 'settings_to_dict'}
+    if not parsed or not dicts:
+        raise AnalysisError('anchor vanished: parse_graphic_sequence / settings_to_dict results in set_ansi_str')
+    for _ in range(3):      # names the state is copied to
+        for s in f.walk():
+            if isinstance(s, ast.Assign) and isinstance(s.value, ast.Name) and (s.value.id in dicts or norm(s.targets[0]) in dicts):
+                dicts.add(norm(s.targets[0]))
+                dicts.add(s.value.id)
+    calls = [n for n in f.walk() if isinstance(n, ast.Call) and call_name(n) == 'apply_formatting' and isinstance(n.func, ast.Attribute) and
+             is_name(n.func.value, f.self_name) and n.args]
+    cons = 'start order'
+    if len(calls) != 1:
+        R.undecided(f, f.node, '%d calls that start the parsed settings' % len(calls), construct=cons)
+        return
+    call = calls[0]
+    arg = call.args[0]
+    sources = []          # (kind, node)
+    unknown = []
+    if not isinstance(arg, ast.Name):
+        defs = [arg]
+    else:
+        L = arg.id
+        lp = next((p for p in _parents(call) if isinstance(p, ast.For) and p in list(f.walk())), None)
+        scope = list(ast.walk(lp)) if lp is not None else list(f.walk())
+        assigns = [n for n in scope if isinstance(n, (ast.Assign, ast.AnnAssign)) and norm(n.targets[0] if isinstance(n, ast.Assign) else n.target) == L and
+                   n.lineno <= call.lineno]
+        assigns.sort(key=lambda n: (n.lineno, n.col_offset))
+        last = assigns[-1] if assigns else None
+        defs = []
+        if last is not None and not (isinstance(last.value, (ast.List, ast.Tuple)) and not last.value.elts) and not norm(last.value) == 'list()':
+            defs = [last.value]
+        else:
+            for n in scope:
+                if isinstance(n, ast.Call) and call_name(n) in ('append', 'extend', 'insert') and isinstance(n.func, ast.Attribute) and is_name(n.func.value, L):
+                    if call_name(n) == 'insert':
+                        unknown.append((n, 'insert() reorders'))
+                        continue
+                    fl = next((p for p in _parents(n) if isinstance(p, ast.For) and p is not lp), None)
+                    if fl is None:
+                        unknown.append((n, 'append outside a loop'))
+                        continue
+                    k = _order_source(fl.iter, parsed, dicts)
+                    if k is None:
+                        unknown.append((n, 'loop over %s' % short(fl.iter)))
+                    else:
+                        sources.append((k, fl))
+            for n in scope:
+                if isinstance(n, ast.Call) and call_name(n) == 'sort' and isinstance(n.func, ast.Attribute) and is_name(n.func.value, L):
+                    if any(x in parsed for x in names_in(n)):
+                        sources = [('sequence', n)]
+                        unknown = []
+                    else:
+                        unknown.append((n, 'sorted by %s' % short(n)))
+    for d in defs:
+        if isinstance(d, (ast.ListComp, ast.GeneratorExp)):
+            k = _order_source(d.generators[0].iter, parsed, dicts)
+            if k is None:
+                unknown.append((d, 'comprehension over %s' % short(d.generators[0].iter)))
+            else:
+                sources.append((k, d))
+        elif isinstance(d, ast.Call) and call_name(d) == 'sorted' and any(x in parsed for x in names_in(d)):
+            sources.append(('sequence', d))
+        elif isinstance(d, ast.Call) and call_name(d) in ('list', 'tuple') and d.args and isinstance(d.args[0], (ast.ListComp, ast.GeneratorExp)):
+            k = _order_source(d.args[0].generators[0].iter, parsed, dicts)
+            if k is None:
+                unknown.append((d, 'comprehension over %s' % short(d.args[0].generators[0].iter)))
+            else:
+                sources.append((k, d))
+        else:
+            unknown.append((d, 'built by %s' % short(d)))
+    if unknown or not sources:
+        n, why = unknown[0] if unknown else (call, 'no definition of the started list found')
+        R.undecided(f, n, 'order of the started settings not recognised: %s' % why, construct=cons)
+        return
+    if all(k == 'sequence' for k, _ in sources):
+        R.ok(f, call, 'the started list is taken from the parsed sequence in its order', construct=cons)
+        return
+    # effect-dictionary order: equals the sequence order only if a replaced effect is re-inserted at the end of the dictionary
+    dnode = next(n for k, n in sources if k == 'dict')
+    stores = [n for n in std.walk() if isinstance(n, ast.Assign) and isinstance(n.targets[0], ast.Subscript) and isinstance(n.targets[0].value, ast.Name)]
+    if len(stores) != 1:
+        R.undecided(std, std.node, '%d stores into the state dictionary' % len(stores), construct=cons)
+        return
+    st = stores[0]
+    dn, key = st.targets[0].value.id, norm(st.targets[0].slice)
+    blk = st._parent.body if st in getattr(st._parent, 'body', []) else getattr(st._parent, 'orelse', [])
+    before = blk[:blk.index(st)] if st in blk else []
+    moved = False
+    for b in before:
+        for n in ast.walk(b):
+            if isinstance(n, ast.Call) and call_name(n) == 'pop' and isinstance(n.func, ast.Attribute) and is_name(n.func.value, dn) and n.args and norm(n.args[0]) == key:
+                moved = True
+            if isinstance(n, ast.Delete) and any(norm(t) == '%s[%s]' % (dn, key) for t in n.targets):
+                moved = True
+    R.check(moved, f, dnode, 'the started list follows the effect dictionary, which re-inserts a replaced effect at its end: sequence order',
+            'the started list follows the order of the effect dictionary, in which a replaced effect keeps the position of the setting it replaces: '
+            'ESC[91m a ESC[1;38;5;1m b is stored as (38;5;1, 1) and rendered ESC[38;5;1;1m -- the renderer emits (1, 38;5;1) for a value whose first '
+            'rendering needed a reset (verbatim settings), so a second simplify() changes str(s)', construct=cons)
